@@ -53,7 +53,7 @@ claim("C08",
       "2 instances hold the same firing group; each runs the receiver's real stage (ClusterWait with position x peer_timeout, Dedup against its own real nflog, Retry, SetNotifies) as goroutines on a virtual clock and "
       "gossips its log entry to the others with a symbolic delay or loses it; one instance may die right after the receiver accepted, before recording. Decided: at least one notification under every loss/delay/crash pattern; "
       "exactly one when every entry arrives faster than peer_timeout, nobody crashes and later positions do not flush earlier; an instance never sends twice. After a partition, one full-state message (MarshalBinary->Merge) makes the second instance silent for every group the first already notified.",
-      "Bounds: 2 instances (preemption bound 0 quick / 1 thorough), one group, one flush round, delays 0..40 s, skew 0..20 s. memberlist, partitions beyond loss/delay of single entries, Settle, the position computation from the member list and "
+      "Bounds: 2 instances (the thorough tier adds hold durations), one group, one flush round, delays 0..40 s, skew 0..20 s. memberlist, partitions beyond loss/delay of single entries, Settle, the position computation from the member list and "
       "the flush-timeout extension in app.setup are outside. " + TRUSTED, "4 C08")
 claim("C09",
       "Bounded symbolic model checking of the real silence merge code: inductive merge step from an arbitrary pre-state, delivery-order/batching/duplication convergence "
